@@ -235,3 +235,130 @@ EXPLANATION = "under construction"
 ASSUMPTIONS = []
 TRUSTED = []
 BOUNDED = [{"name": "parse-links-on-generated-parsers", "script": "bounded/b15_link_parse.py"}]
+
+
+# ------------------------------------------------------------------------------------------------ call_compute_fn
+def ccf_setup(ctx):
+    from pyvc.engine import Fn
+    fate = ["returns", "raises-ValueError", "raises-KeyError", "raises-TypeError", "not-callable"][ctx.choose(5, "compute_fn")]
+    n = ctx.choose(3, "number-of-sources")
+    args = [z3.Int(f"source{i}") for i in range(n)]
+    out = Rec("computed value")
+
+    def fn(c, a, k):
+        c.event("compute", tuple(a), dict(k))
+        if fate.startswith("raises"):
+            raise PyRaise(ExcVal(fate.split("-")[1], args=("boom",), origin="compute_fn"))
+        return out
+
+    compute = Fn(fn, "compute_fn") if fate != "not-callable" else None
+    self = Rec("ActionLink", attrs={"compute_fn": compute, "option_strings": ["--a --> b"]})
+    return Setup(env={"self": self, "args": tuple(args)}, calls={"callable": lambda c, a, k: isinstance(a[0], Fn)}, data=dict(fate=fate, args=args, out=out))
+
+
+def ccf_post(ctx, st, result):
+    d = st.data
+    ev = [e for e in ctx.events if e[0] == "compute"]
+    ctx.oblige("post", f"the-value-is-compute_fn-applied-to-the-source-values,in-order,once[{d['fate']},{len(d['args'])} sources]",
+               d["fate"] == "returns" and result is d["out"] and len(ev) == 1 and len(ev[0][1]) == len(d["args"]) and all(x is y for x, y in zip(ev[0][1], d["args"])) and ev[0][2] == {})
+
+
+def ccf_raises(ctx, st, exc):
+    d = st.data
+    ctx.oblige("raises", f"any-failure-of-compute_fn-is-reported-as-ValueError(never a value from nowhere)[{d['fate']}](got {exc.cls})", exc.cls == "ValueError" and d["fate"] != "returns")
+
+
+UNITS.append(Unit("C15", "jsonargparse._link_arguments:ActionLink.call_compute_fn", ccf_setup, ccf_post, ccf_raises, expect_cover=("return", "raise:ValueError"),
+                  trusted=["str(a) of a source value does not raise"]))
+
+
+# ------------------------------------------------------------------------------------------------ strip_link_target_keys
+# a link target is derived: it is not part of what dump()/save() write (so that re-parsing recomputes it from its sources); stripping
+# removes exactly the target keys (and a group left empty by that), also below the selected subcommand, and nothing else.
+def slt_setup(ctx):
+    from contracts.ns_units import Branch, build, view, common as ns_common
+    scen = ["flat-target", "nested-target", "nested-target-leaves-siblings", "two-links", "subclass-init_arg-target", "target-absent", "no-links", "subcommand"][ctx.choose(8, "links")]
+    v = [z3.Int(f"v{i}") for i in range(6)]
+    ctx.classes.add("ActionLink", ["Action"])
+    ctx.classes.add("ActionTypeHint", ["Action"])
+    L = lambda t: Rec("ActionLink", attrs={"target": (t, Rec("Action"))})  # noqa: E731
+    plain = Rec("Action", attrs={"dest": "a"})
+    tree, actions, want = {
+        "flat-target": (Branch(a=v[0], y=v[1]), [plain, L("y")], Branch(a=v[0])),
+        "nested-target": (Branch(a=v[0], b=Branch(x=v[1])), [plain, L("b.x")], Branch(a=v[0])),
+        "nested-target-leaves-siblings": (Branch(a=v[0], b=Branch(x=v[1], z=v[2])), [L("b.x")], Branch(a=v[0], b=Branch(z=v[2]))),
+        "two-links": (Branch(a=v[0], b=Branch(x=v[1]), y=v[2], c=Branch(d=Branch(e=v[3]), f=v[4])), [L("b.x"), L("y"), L("c.d.e")], Branch(a=v[0], c=Branch(f=v[4]))),
+        "subclass-init_arg-target": (Branch(m=Branch(class_path="P", init_args=Branch(k=v[0], j=v[1]))),
+                                     [Rec("ActionTypeHint", attrs={"dest": "m", "sub_add_kwargs": {"linked_targets": ["k"]}})], Branch(m=Branch(class_path="P", init_args=Branch(j=v[1])))),
+        "target-absent": (Branch(a=v[0]), [L("b.x"), L("y")], Branch(a=v[0])),
+        "no-links": (Branch(a=v[0], b=Branch(x=v[1])), [plain, Rec("ActionTypeHint", attrs={"dest": "t"})], Branch(a=v[0], b=Branch(x=v[1]))),
+        "subcommand": (Branch(a=v[0], y=v[1], fit=Branch(lr=v[2], y2=v[3])), [plain, L("y")], Branch(a=v[0], fit=Branch(lr=v[2], y2=v[3]))),
+    }[scen]
+    cfg = build(tree)
+    subparser = Rec("ArgumentParser(fit)")
+    parser = Rec("ArgumentParser", attrs={"_actions": actions})
+
+    def get_subcommands(c, a, k):
+        c.event("get_subcommands", a[0], a[1], list(open_cms))
+        return (["fit"], [subparser]) if scen == "subcommand" else (None, None)
+
+    def recurse(c, a, k):
+        c.event("recurse", a[0], a[1])
+
+    open_cms = []
+    consts, inline = ns_common(ctx)
+    consts.update({"ActionLink": ClassRef("ActionLink"), "ActionTypeHint": ClassRef("ActionTypeHint")})
+    calls = {"_ActionSubCommands.get_subcommands": get_subcommands, "ActionLink.strip_link_target_keys": recurse}
+    cms = {"_ActionSubCommands.not_single_subcommand": (lambda c, a, k: open_cms.append("not_single_subcommand"), lambda c, t, e: (open_cms.pop(), False)[1])}
+    return Setup(env={"parser": parser, "cfg": cfg}, calls=calls, consts=consts, cms=cms, inline=inline,
+                 data=dict(scen=scen, cfg=cfg, want=want, view=view, subparser=subparser, parser=parser))
+
+
+def slt_post(ctx, st, result):
+    from contracts.ns_units import same_view, rec_at
+    d = st.data
+    tag = f"[{d['scen']}]"
+    ctx.oblige("post", "exactly-the-link-target-keys-are-removed(and a group left empty by that);every-other-key-is-untouched" + tag, same_view(d["view"](d["cfg"]), d["want"]), note=str(d["view"](d["cfg"])))
+    gs = [e for e in ctx.events if e[0] == "get_subcommands"]
+    ctx.oblige("post", "the-selected-subcommand-is-looked-up-on-this-configuration-without-the-single-subcommand-shortcut" + tag, len(gs) == 1 and gs[0][1] is d["parser"] and gs[0][2] is d["cfg"] and gs[0][3] == ["not_single_subcommand"])
+    rec = [e for e in ctx.events if e[0] == "recurse"]
+    if d["scen"] == "subcommand":
+        ctx.oblige("post", "the-section-of-the-selected-subcommand-is-stripped-by-its-own-parser" + tag, len(rec) == 1 and rec[0][1] is d["subparser"] and rec[0][2] is rec_at(d["cfg"], ["fit"]))
+    else:
+        ctx.oblige("post", "no-subcommand=>no-recursion" + tag, not rec)
+
+
+def slt_raises(ctx, st, exc):
+    ctx.oblige("raises", f"never-raises[{st.data['scen']}](got {exc.cls}@{exc.origin})", False)
+
+
+UNITS.append(Unit("C15", "jsonargparse._link_arguments:ActionLink.strip_link_target_keys", slt_setup, slt_post, slt_raises,
+                  trusted=["cfg is a Namespace: pop / in / [] / del by their contracts (C11 units)", "_ActionSubCommands.get_subcommands by contract (C17 unit)", "the recursive call by contract"]))
+
+
+# ------------------------------------------------------------------------------------------------ get_link_actions
+def gla_setup(ctx):
+    has_group = ctx.choose(2, "parser-has-links") == 1
+    apply_on = ["parse", "instantiate"][ctx.choose(2, "apply_on")]
+    acts = [Rec("ActionLink", attrs={"apply_on": a, "i": i}) for i, a in enumerate(["parse", "instantiate", "parse", "instantiate"])]
+    skip_kind = ["default", "empty", "second-and-third"][ctx.choose(3, "skip")]
+    parser = Rec("ArgumentParser", attrs={"_links_group": Rec("group", attrs={"_group_actions": acts})} if has_group else {})
+    env = {"parser": parser, "apply_on": apply_on}
+    if skip_kind != "default":
+        env["skip"] = [] if skip_kind == "empty" else [acts[1], acts[2]]
+    return Setup(env=env, data=dict(has_group=has_group, apply_on=apply_on, acts=acts, skip_kind=skip_kind))
+
+
+def gla_post(ctx, st, result):
+    d = st.data
+    skipped = [d["acts"][1], d["acts"][2]] if d["skip_kind"] == "second-and-third" else []
+    want = [a for a in d["acts"] if a.attrs["apply_on"] == d["apply_on"] and not any(a is s for s in skipped)] if d["has_group"] else []
+    ctx.oblige("post", f"exactly-the-links-of-that-phase,in-declaration-order,minus-the-skipped[{d['apply_on']},{d['skip_kind']},{'links' if d['has_group'] else 'no links'}]",
+               isinstance(result, list) and len(result) == len(want) and all(x is y for x, y in zip(result, want)))
+
+
+def gla_raises(ctx, st, exc):
+    ctx.oblige("raises", f"never-raises(got {exc.cls}@{exc.origin})", False)
+
+
+UNITS.append(Unit("C15", "jsonargparse._link_arguments:get_link_actions", gla_setup, gla_post, gla_raises))
